@@ -27,11 +27,21 @@ var (
 	guardDie atomic.Bool
 )
 
+// BeatParse is the cheap variant for direct calls of the parser (tens of millions per job): the input is kept
+// by pointer, the description is only built if the watchdog fires.
+func BeatParse(raw *string) {
+	beatRaw.Store(raw)
+	beatN.Add(1)
+}
+
+var beatRaw atomic.Pointer[string]
+
 // Beat records the unit of work that is about to start.
 func Beat(family, input string, params map[string]interface{}) {
 	beatMu.Lock()
 	beatCur = &beatInfo{family, input, params}
 	beatMu.Unlock()
+	beatRaw.Store(nil)
 	beatN.Add(1)
 }
 
@@ -69,6 +79,9 @@ func GuardJob(j Job) Job {
 				beatMu.Lock()
 				cur := beatCur
 				beatMu.Unlock()
+				if raw := beatRaw.Load(); raw != nil {
+					cur = &beatInfo{"parse-direct", Q(*raw), map[string]interface{}{"lines": []string{*raw}, "mode": "direct", "raw": *raw}}
+				}
 				if cur == nil || beatN.Load() != last {
 					continue
 				}
